@@ -34,7 +34,11 @@ RULE = ("histories = one space (SingleGrid, MultiGrid, HexSingleGrid, HexMultiGr
         "signatures, split_model_params and ModelCreator on dicts over 13 value forms; variants per history: shared portrayal "
         "dicts (20 %), colours as hex / RGB / RGBA / mixed (30 %), numpy scalars (20 %), agents with a False truth value (25 %), "
         "every draw preceded by a draw aborted in the portrayal (15 %); plus all signatures with <= 1 (quick) / <= 2 (thorough) "
-        "parameters x 16 parameter subsets; every history starts from the EMPTY space; non-trivial = at least one "
+        "parameters x 16 parameter subsets; variants also: portrayal returning a dict subclass / read-only Mapping / OrderedDict, portrayal "
+        "given as bound method / partial / callable object, legacy agents with pos behind a property, every drawing entry point with "
+        "and without ax; IMPLEMENTATION + ORACLE ONLY streams (not model-evaluated): SCALE (6 histories with 255..5000 agents and 1-3 "
+        "agents returning a key) and USER CODE (70 histories whose portrayal moves the portrayed agent, moves another agent, or raises "
+        "one of 7 exception types inside collect / draw_space / the component, each followed by ordinary draws); every history starts from the EMPTY space; non-trivial = at least one "
         "drawing/check observation that is not a no-op and at least 3 operations; distinct = by SHA1 of the history")
 TRUSTED_BASE = [
     "Coq 8.16.1 kernel (coqc); vm_compute for the Examples, the refutation witnesses and the evaluation of the model in the correspondence",
